@@ -156,7 +156,7 @@ func runRawCase(out *hx.Out, r *hx.Rng, version needle.Version, g int) {
 	if panicked {
 		out.Count("raw:scan-panicked", 1)
 	}
-	term := fmt.Sprintf("{| c_version := %d; c_prefix := %s; c_needles := []; c_crcs := []; c_crc_empty := %d; c_crc_extra := %s; c_flips := []; c_do_scan := true; c_scan_off := 8; c_recopies := []; c_tscans := []; c_raws := %s; i_scan_panicked := %s; i_file := %s; i_appends := []; i_reads := []; i_scan := %s |}",
+	term := fmt.Sprintf("{| c_version := %d; c_prefix := %s; c_needles := []; c_crcs := []; c_crc_empty := %d; c_crc_extra := %s; c_flips := []; c_do_scan := true; c_scan_off := 8; c_recopies := []; c_tscans := []; c_raws := %s; i_scan_panicked := %s; i_file := %s; i_appends := []; i_reads := []; i_scan := %s; c_streams := [] |}",
 		version, pk(file), uint32(needle.NewCRC(nil)), hx.List(extra), hx.List(raws), hx.Bool(panicked), pk(file), hx.List(sc.visits))
 	out.Add(term, fmt.Sprintf("raw|v%d|%s", version, strings.Join(canon, "|")), nontrivial, "raw-framed-records")
 }
